@@ -39,6 +39,24 @@ def agreesB (lat : Nat → Nat → Rat) (offset : Nat) (paths : List (List Nat))
   result.all (fun r => want.contains r) && want.all (fun w => result.contains w) &&
     result.all (fun r => (result.filter (· == r)).length == 1)
 
+/-- nodes and latencies of the dependency path that starts at the `j`-th dependency: the lines from
+    there on in this iteration, then the earlier lines in the next iteration (`+ offset`), back to
+    the start line of the next iteration -/
+def rotation (deps : Deps) (offset j : Nat) : List Nat × List Rat :=
+  let a := deps.drop j
+  let b := deps.take j
+  (a.map (·.1) ++ b.map (·.1 + offset) ++ (a.head?.map (·.1 + offset)).toList, (a ++ b).map (·.2))
+
+/-- a reported item is a genuine loop-carried dependency of the doubled graph with the correct
+    latency: for some start line its dependencies are, edge by edge with the reported latencies,
+    a path from that line to the same line of the next iteration, and the total is their sum -/
+def isCycleB (edge : Nat → Nat → Option Rat) (offset : Nat) (deps : Deps) (latency : Rat) : Bool :=
+  !deps.isEmpty && latency == (deps.map (·.2)).foldr (· + ·) 0 &&
+  (List.range deps.length).any fun j =>
+    let r := rotation deps offset j
+    (edges r.1).length == r.2.length &&
+      ((edges r.1).zip r.2).all fun el => edge el.1.1 el.1.2 == some el.2
+
 def subResultB (part full : List (Deps × Rat)) : Bool := part.all fun r => full.contains r
 
 end OsacaVerif.Spec.Lcd
